@@ -68,7 +68,7 @@ def suite_shards(tier, seed):
     return out
 
 
-def run_suite_shard(spec, rec: Rec, pid: str, own: tuple[str, ...]):
+def run_suite_shard(spec, rec: Rec, pid: str, own: tuple[str, ...], passive: tuple[str, ...] = ()):
     import os
     import shutil
     import subprocess
@@ -79,7 +79,7 @@ def run_suite_shard(spec, rec: Rec, pid: str, own: tuple[str, ...]):
     pp = os.pathsep.join(x for x in [os.environ.get("VERIF_REPO", ""), verif] if x)
     try:
         subprocess.run(["/venv/bin/python", "-m", "pytest", "-q", "-p", "no:cacheprovider", "-p", "vf.pytest_txsan", os.path.join(spec["root"], spec["file"])],
-                       cwd=d, env=dict(os.environ, PYTHONPATH=pp, VF_SUITE_OUT=out, VF_SUITE_PROP=pid, VF_SUITE_PART=spec.get("part", "0/1"), VERIF_ANCHORS="0"), capture_output=True, text=True, timeout=2400)
+                       cwd=d, env=dict(os.environ, PYTHONPATH=pp, VF_SUITE_OUT=out, VF_SUITE_PROP=pid, VF_SUITE_PART=spec.get("part", "0/1"), VF_SUITE_PASSIVE=",".join(passive), VERIF_ANCHORS="0"), capture_output=True, text=True, timeout=2400)
     except subprocess.TimeoutExpired:
         rec.note(f"repository test file {spec['file']} did not finish under the sanitizer within the time limit (not a verdict)")
     try:
@@ -90,6 +90,9 @@ def run_suite_shard(spec, rec: Rec, pid: str, own: tuple[str, ...]):
             sub.counters.update(dd["counters"])
             sub.conds = dd["conds"]
             sub.violations, sub.viol_total = dd["violations"], dd["viol_total"]
+            sub.distinct = set(dd.get("distinct", []))
+            for h in dd.get("harness_errors", []):
+                sub.harness_error(h)
             transfer(sub, rec, own)
             rec.count("repository_test_files_run_under_the_sanitizer")
         else:
